@@ -4,6 +4,7 @@ use std::str::FromStr;
 
 use serde::Deserialize;
 use serde::Serialize;
+use tako::Set;
 
 use crate::common::arrayparser::parse_array;
 
@@ -32,7 +33,8 @@ impl IntRange {
 impl Debug for IntRange {
     fn fmt(&self, f: &mut Formatter<'_>) -> fmt::Result {
         let Self { start, count, step } = self;
-        write!(f, "({start}-{};{step})", start + count)
+        // This may print a range that did not pass `IntArray::validate`
+        write!(f, "({start}-{};{step})", start.saturating_add(*count))
     }
 }
 
@@ -79,6 +81,27 @@ impl IntArray {
                 count,
                 step: 1,
             }],
+        }
+    }
+
+    /// Checks an array that was not created by the parser or by the constructors above
+    /// (e.g. a deserialized one): its ids can be iterated and each id is there only once.
+    pub fn validate(&self) -> Result<(), String> {
+        for range in &self.ranges {
+            if range.step == 0 {
+                return Err(format!("range starting at {} has zero step", range.start));
+            }
+            if range.start.checked_add(range.count).is_none() {
+                return Err(format!(
+                    "range starting at {} with size {} is out of bounds",
+                    range.start, range.count
+                ));
+            }
+        }
+        let mut ids = Set::new();
+        match self.iter().find(|id| !ids.insert(*id)) {
+            Some(id) => Err(format!("id {id} is there more than once")),
+            None => Ok(()),
         }
     }
 
